@@ -47,7 +47,7 @@ typedef struct a_hpf
     }
     A_INLINE a_real operator()(a_real x)
     {
-        output = alpha * (output + x - input);
+        output = alpha * (output + (x - input));
         return (void)(input = x), output;
     }
     A_INLINE void zero()
@@ -110,7 +110,7 @@ A_INTERN void a_hpf_init(a_hpf *ctx, a_real alpha)
 */
 A_INTERN a_real a_hpf_iter(a_hpf *ctx, a_real x)
 {
-    ctx->output = ctx->alpha * (ctx->output + x - ctx->input);
+    ctx->output = ctx->alpha * (ctx->output + (x - ctx->input));
     return (void)(ctx->input = x), ctx->output;
 }
 
